@@ -103,16 +103,23 @@ def check_enum_values(value: NDArray[np.ubyte], enum_type: Type[IntEnum]) -> Non
         raise ValueError(msg)
 
 
+def _check_1d(array: NDArray[Any]) -> NDArray[Any]:
+    if array.ndim != 1:
+        msg = "a one-dimensional array or a single value is required"
+        raise ValueError(msg)
+    return array
+
+
 def _convert_1d_array(array: ArrayLike | None) -> NDArray[np.float64] | None:
     if array is None:
         return array
-    return immutable_array(array, dtype=np.float64, ndmin=1)
+    return _check_1d(immutable_array(array, dtype=np.float64, ndmin=1))
 
 
 def _convert_1d_array_intc(array: ArrayLike | None) -> NDArray[np.intc] | None:
     if array is None:
         return array
-    return immutable_array(array, dtype=np.intc, ndmin=1)
+    return _check_1d(immutable_array(array, dtype=np.intc, ndmin=1))
 
 
 def _convert_1d_array_bool(
@@ -120,7 +127,7 @@ def _convert_1d_array_bool(
 ) -> NDArray[np.bool_] | None:
     if array is None:
         return array
-    return immutable_array(array, dtype=np.bool_, ndmin=1)
+    return _check_1d(immutable_array(array, dtype=np.bool_, ndmin=1))
 
 
 def _convert_2d_array(array: ArrayLike | None) -> NDArray[np.float64] | None:
@@ -132,7 +139,7 @@ def _convert_2d_array(array: ArrayLike | None) -> NDArray[np.float64] | None:
 def _convert_enum_array(array: ArrayLike | None) -> NDArray[np.ubyte] | None:
     if array is None:
         return array
-    return immutable_array(array, dtype=np.ubyte, ndmin=1)
+    return _check_1d(immutable_array(array, dtype=np.ubyte, ndmin=1))
 
 
 T = TypeVar("T")
